@@ -316,6 +316,14 @@ def cases(tier, seed):
             for plane in planes_for(tier, adaptive):
                 for adapt in (ADAPT_KINDS if adaptive else ["-"]):
                     yield ["S", plane, mesh, scheme, params, adapt, seed]
+    # large fine meshes for the kernel schemes only (extent >> kernel scale: a covariance that is truncated or thresholded at
+    # several scale lengths stops being positive definite only when the mesh is many scale lengths across)
+    big = [["rect", 12, 12], ["rect", 9, 14]] if tier == "quick" else [["rect", 12, 12], ["rect", 9, 14], ["rect", 14, 14], ["rect", 16, 10]]
+    for mesh in big:
+        for name in ("GaussianKernel", "ExponentialKernel"):
+            for c in (1.0,):
+                for sc in (0.7, 1.0, 1.5):
+                    yield ["S", ["full", 1, "identity"], mesh, name, [c, sc], "-", seed]
     bmasks = ["full", "ragged"] if tier == "quick" else ["full", "ragged", "two"]
     for ol in block_lists():
         for mname in bmasks:
@@ -348,9 +356,14 @@ def general_laws(v, name, H, n, strict):
         return False
     sc = max(_absmax(H), 1e-300)
     asym = _absmax(H - H.T) / sc
-    v.ok(asym <= 1e-12, "%s:not-symmetric" % name, lambda: "max|H-H^T|/max|H| = %.3e" % asym)
     ev = np.linalg.eigvalsh((H + H.T) / 2.0)
     nrm = max(abs(ev[0]), abs(ev[-1]))
+    # the kernel schemes return a numerically INVERTED covariance matrix: its round-off asymmetry scales with the conditioning
+    # of that inversion (observed <= 0.1*eps*cond), so the symmetry demand on them is condition-aware; assembled schemes: 1e-12
+    symtol = 1e-12
+    if name in ("GaussianKernel", "ExponentialKernel") and ev[0] > 0:
+        symtol = max(1e-12, 20.0 * 2.2e-16 * (ev[-1] / ev[0]))
+    v.ok(asym <= symtol, "%s:not-symmetric" % name, lambda: "max|H-H^T|/max|H| = %.3e (tolerance %.1e)" % (asym, symtol))
     v.ok(ev[0] >= -1e-10 * nrm, "%s:not-psd" % name, lambda: "min eigenvalue %.6e, ||H||=%.3e" % (ev[0], nrm))
     if strict:
         try:
